@@ -10,7 +10,8 @@ package c09
 //	             P = the public key object, S = the private (secret) key object
 //	             pub = uncompressed point (hex) | <modulus hex>:<exponent> | -
 //	C09|I|<json text hex>|<canonical parse | !>|<on-curve table>|<tag>
-//	    JWKSetToPublicKeysetHandle on the text; the model gets the parsed value
+//	    JWKSetToPublicKeysetHandle on the text; the model parses the text itself and
+//	    its parse is compared with the second field (structpb's parse)
 //	    table  = ~ | <256|384|512>:<point hex>:<0|1>,...  for every EC key object
 //	             of the set (crypto/elliptic's answer for 04||x||y)
 //
@@ -532,6 +533,21 @@ func lineI(text, tag string) string {
 	return strings.Join([]string{"C09", "I", hx.H([]byte(text)), canon, curveTable(canon), tag}, "|")
 }
 
+// exportedTextLine: the JWK set TEXT that the real JWKSetFromPublicKeysetHandle
+// produces for ks (at generation time), as an I line: the model parses Tink's
+// own text, its parse is compared with structpb's, and the set is imported.
+func exportedTextLine(ks []xk, tag string) (string, bool) {
+	h, err := buildHandleX(ks)
+	if err != nil {
+		return "", false
+	}
+	js, err := jwt.JWKSetFromPublicKeysetHandle(h)
+	if err != nil {
+		return "", false
+	}
+	return lineI(string(js), tag), true
+}
+
 func lineX(ks []xk, tag string) string {
 	for i := range ks {
 		ks[i].Pub = pubOf(ks[i].kd)
@@ -942,7 +958,15 @@ func directedJWK() []string {
 	} {
 		out = append(out, lineI(c.text, c.tag))
 	}
-	// export
+	// export; every keyset whose export succeeds also gives an I line with the exported TEXT
+	var xtexts []string
+	lineX := func(ks []xk, tag string) string {
+		l := lineX(ks, tag)
+		if t, ok := exportedTextLine(ks, "xtext-"+strings.SplitN(tag, ":", 2)[0]+":A"); ok {
+			xtexts = append(xtexts, t)
+		}
+		return l
+	}
 	id := uint32(100)
 	one := func(alg string, kid byte, private, enabled, primary bool) xk {
 		id++
@@ -980,7 +1004,7 @@ func directedJWK() []string {
 		x.Mat = mat
 		out = append(out, lineX([]xk{x}, "exp-rsa-shapes:E"))
 	}
-	return out
+	return append(out, xtexts...)
 }
 
 func (g *G) seed32() string { return hx.H(g.r.Bytes(32)) }
@@ -1029,7 +1053,11 @@ func (g *G) exportCase() string {
 	}
 	p := r.Intn(n)
 	ks[p].Enabled, ks[p].Primary = true, true
-	return lineX(ks, "exp-random")
+	l := lineX(ks, "exp-random")
+	if t, ok := exportedTextLine(ks, "xtext-exp-random:A"); ok {
+		g.extra = append(g.extra, t)
+	}
+	return l
 }
 
 // importCase: a JWK set of 1..3 keys, some manipulated.
